@@ -298,7 +298,8 @@ def _utf8_eq_single(a, b, tbl):
         # equal texts have equal character counts, so `a` has no continuation byte: both ASCII and bytewise equal
         return K._and(*[K._and(K._rng(y, 0, 0x7F), K._teq(x, y)) for x, y in zip(a, b)])
     if n * m > 900:
-        raise HarnessError('comparison of long symbolic texts carried in different codecs is not modelled')
+        # cut this path (counted as a bound hit); the other paths of the job go on
+        raise symex.BoundHit('comparison of long symbolic texts carried in different codecs (DP over %d x %d bytes)' % (n, m))
     high = [(v, enc) for v, enc in sorted(tbl.items()) if v >= 128]
     match = {}
     for j in range(m, -1, -1):
